@@ -10,6 +10,7 @@ import Hls.Props.C07
 #print axioms Hls.C07.derived_iv_value
 #print axioms Hls.C07.built_keys
 #print axioms Hls.C07.effective_ivs_lines
+#print axioms Hls.C07.effective_ivs
 #print axioms Hls.C07.show_iv_free
 #print axioms Hls.C07.stripIv_spec
 #print axioms Hls.C07.stripIv_completeIv
